@@ -527,6 +527,7 @@ def statement_bounds(masked: str, f: Fn, needle_idx: int):
 
 def splice_module(mod: str, src: str, recs, report, havoc=(), variant="main"):
     masked, blocks, fns = scan_module(src)
+    report.setdefault("all_fns", {})[mod] = sorted({f.name for f in fns})
     edits = []
     uses = []
     fn_attrs = {}
